@@ -8,6 +8,7 @@ COMMON_NOTE = ("Trusted base: the home-built VC generator pyvc (symbolic executi
                "z3's unknowns), cross-checked against CPython on every explored path on every run; Python integers mathematical; "
                "library models listed in evidence.coverage.trusted_base; exception-message formatting and logging calls treated "
                "as total no-ops. ")
+NA = {}
 CLAIMS = {
     'C15': dict(
         text="Every algebraic law of the statement is a named obligation over the real Capacities/FreeCapacity source, discharged "
@@ -18,6 +19,32 @@ CLAIMS = {
         technique="contract-based deductive verification: sidecar contracts on the real functions, VCs generated from the real "
                   "AST per path, discharged by z3 (unbounded integers); counter-models replayed on the real code",
         design_ref="DESIGN.md section 3 C15"),
+    'C03': dict(
+        text="Per codec class the obligations decode(encode(x))==x (nothing set <=> '' <=> absent), encode(decode(encode(x)))==encode(x), "
+             "encoding leaves x untouched, unknown keys tolerated with every known key kept, copy-with-changes returns a new value "
+             "and leaves the original untouched are discharged on the real to_json/from_json/_set_fields/update source for all field "
+             "values of the class's constructor domain (Capacities, CapacityHints, Labels, ReservationInfo, StructuralInfo, Location, "
+             "Flags, Tags, User/Measurement/LayoutData).",
+        note="json.dumps/json.loads assumed mutually inverse and canonical under sort_keys (assumed library contract); list-valued "
+             "fields are opaque values for the classes that only store them; Labels and Tags list forms are bounded (length <= 2) and "
+             "counted as bounded, not proved. Gateway, PathInfo/ERO, MaintenanceInfo and TypedTuple codecs: see DESIGN.md status table.",
+        technique="contract-based deductive verification: sidecar contracts on the real codec functions, per-path VCs from the real AST, "
+                  "z3 + cvc5; json as an assumed inverse pair; counter-models replayed on the real code",
+        design_ref="DESIGN.md section 3 C03"),
+    'C16': dict(
+        text="For every label field the real Labels._set_fields is proved, for all strings, to accept exactly the documented domain "
+             "(published pattern matched against the whole string with CPython regex semantics incl. Unicode classes, plus the "
+             "published numeric range), to store exactly the given value and to leave the object unchanged on rejection; constructor, "
+             "copy-with-changes, decoding and re-encoding are proved modularly against that contract; same two-sided obligations for "
+             "Capacities._set_fields, Tags._check, the three JSON blob classes (size limit and JSON validity), set_name of the five "
+             "sliver classes and set_boot_script; the validator tables are pinned.",
+        note="re semantics: translation of CPython's own parse tree to SMT regexes, sampled against the real engine; minterm "
+             "abstraction of the non-ASCII alphabet; int(str) exact on ASCII digit strings and uninterpreted elsewhere; list forms "
+             "bounded to length <= 2 (counted as bounded); model-element property assignment (fim.user) reduces to these setters "
+             "and is not separately proved.",
+        technique="contract-based deductive verification: two-sided validator contracts (accept <=> documented domain) on the real "
+                  "functions, regex/string VCs discharged by z3 with cvc5 taking z3's unknowns; callers verified against the callee contract",
+        design_ref="DESIGN.md section 3 C16"),
 }
 checks, na = [], []
 for p in props:
@@ -29,7 +56,7 @@ for p in props:
                            engine="pyvc", level_claimed=dict(category=c.get('category', 'proof'), text=c['text'], design_ref=c['design_ref']),
                            level_note=COMMON_NOTE + c['note'], technique=c['technique']))
     else:
-        na.append(dict(property_id=pid, reason=NA.get(pid, "check under construction (DESIGN.md section 6 build order); not yet claimed")) if (NA := globals().get('NA', {})) is not None else None)
+        na.append(dict(property_id=pid, reason=NA.get(pid, "check under construction (DESIGN.md section 6 build order); not yet claimed")))
 m = dict(version=1, setup_cmd="./setup.sh",
          hooks=dict(guard="FIM_VERIF", enable="no hooks in /repo: contracts are sidecar files under /verif/contracts; the real source is "
                     "located through the live function objects and parsed with ast on every run", baseline_off_cmd=BASE,
